@@ -390,6 +390,102 @@ mod xen {
         t
     }
 
+    /// Copies whose SOURCE is ordinary memory and whose DESTINATION is a slice of the region (the
+    /// slice-to-slice and array-to-slice forms): the destination decides whether a window is
+    /// needed, whatever the source is.
+    fn into_region(ctx: &Ctx, r: &Region, init: &[u8]) -> u64 {
+        use vm_memory::VolatileMemory;
+        let on_demand = r.kind == "grant-on-demand";
+        let mut t = 0u64;
+        let mut plain = vec![0u64; 1024];
+        let pbase = plain.as_mut_ptr() as *mut u8;
+        for (off, len) in [(0usize, 8usize), (4090, 12), (4094, 4), (1, 5000), (r.len - 16, 16), (4096, 4096), (100, 2)] {
+            for form in 0..3usize {
+                let name = ["VolatileSlice::copy_to_volatile_slice (ordinary memory -> region)", "VolatileArrayRef<u8>::copy_to_volatile_slice (ordinary memory -> region)", "VolatileArrayRef<u16>::copy_to_volatile_slice (ordinary memory -> region)"][form];
+                if form == 2 && len % 2 != 0 {
+                    continue;
+                }
+                t += 1;
+                ctx.case(true);
+                let key_base = format!("C17/xen/{}/{}", r.kind, name);
+                let rp = || json!({"region": r.kind, "region_len": r.len, "op": name, "offset": off, "len": len});
+                for i in 0..len {
+                    unsafe { *pbase.add(i) = 0xC0 | (i as u8 & 0x3f) };
+                }
+                // SAFETY: plain outlives the slices
+                let src = unsafe { VolatileSlice::new(pbase, len) };
+                let run = |reg: &GuestRegionMmap<()>| {
+                    let vs = reg.as_volatile_slice().unwrap();
+                    let dst = vs.subslice(off, len).unwrap();
+                    match form {
+                        0 => src.copy_to_volatile_slice(dst),
+                        1 => src.get_array_ref::<u8>(0, len).unwrap().copy_to_volatile_slice(dst),
+                        _ => src.get_array_ref::<u16>(0, len / 2).unwrap().copy_to_volatile_slice(dst),
+                    }
+                };
+                r.set_state(init);
+                r.emu.take_log();
+                match in_child(|| {
+                    run(&r.reg);
+                    0
+                }) {
+                    Child::Exited(0) => {}
+                    other => {
+                        let key = format!("{}/access-outside-any-mapping", key_base);
+                        let rpv = if ctx.has_failed(&key) { serde_json::Value::Null } else { rp() };
+                        ctx.fail(&key, &format!("{} bytes into region offset {:#x}: died with {:?} - the library wrote guest memory without (or beyond) a temporary mapping", len, off, other), rpv);
+                        continue;
+                    }
+                }
+                r.set_state(init);
+                r.emu.take_log();
+                run(&r.reg);
+                let after = r.state();
+                let log = r.emu.take_log();
+                let mut want = init.to_vec();
+                for i in 0..len {
+                    want[off + i] = 0xC0 | (i as u8 & 0x3f);
+                }
+                let mut bad: Option<(&str, String)> = None;
+                if after != want {
+                    let i = (0..after.len()).find(|i| after[*i] != want[*i]).unwrap_or(0);
+                    bad = Some(("memory", format!("guest memory differs from the model at offset {:#x}: {:#x} vs {:#x}", i, after[i], want[i])));
+                }
+                if on_demand {
+                    let lo = r.first_page * PAGE + off as u64;
+                    let hi = lo + len as u64;
+                    let mut page = lo / PAGE * PAGE;
+                    while page < hi {
+                        let covered = log.iter().any(|e| matches!(e, DevEvent::MapGrant { first_ref, count, ok: true, .. } if *first_ref as u64 * PAGE <= page && page < (*first_ref as u64 + *count as u64) * PAGE));
+                        if !covered {
+                            bad = Some(("window-does-not-cover-the-access", format!("bytes [{:#x},+{}) written, page {:#x} was never mapped; device log {:?}", off, len, page, log)));
+                            break;
+                        }
+                        page += PAGE;
+                    }
+                    if !r.emu.live().is_empty() {
+                        bad = Some(("window-left-mapped", format!("{:?}", r.emu.live())));
+                        r.emu.state.borrow_mut().live.clear();
+                        r.emu.state.borrow_mut().refs.clear();
+                    }
+                } else if !log.is_empty() {
+                    bad = Some(("unexpected-device-request", format!("{:?}", log)));
+                }
+                let pe = std::mem::take(&mut r.emu.state.borrow_mut().protocol_errors);
+                if !pe.is_empty() {
+                    bad = Some(("device-protocol", format!("{:?}", pe)));
+                }
+                if let Some((k, d)) = bad {
+                    let key = format!("{}/{}", key_base, k);
+                    let rpv = if ctx.has_failed(&key) { serde_json::Value::Null } else { rp() };
+                    ctx.fail(&key, &format!("{} bytes into region offset {:#x}: {}", len, off, d), rpv);
+                }
+            }
+        }
+        drop(plain);
+        t
+    }
+
     /// Environment faults with deviation bound 1: the operation is run once to count the mmap calls
     /// and map-grant requests it makes, then once per call with exactly that call failing. A
     /// failed access may report an error (or panic), but nothing may stay mapped, neither in the
@@ -671,6 +767,7 @@ mod xen {
             fd_runs += fd_transfers(ctx, &r, &init, thorough);
             if kind == "grant-on-demand" || (kind == "grant-in-advance") {
                 derived_runs += derived(ctx, &r, &init);
+                derived_runs += into_region(ctx, &r, &init);
             }
             // accessors that hand out plain references: nothing can keep a window mapped for them
             if kind == "grant-on-demand" && pages == 2 {
@@ -740,7 +837,7 @@ mod xen {
 pub fn run(tier: Tier, replay: Option<String>) -> i32 {
     let ctx = crate::new_ctx("C17", tier, "model_checking", &replay);
     let build = if cfg!(feature = "xen") { "xen" } else { "std" };
-    ctx.set_rule("(a) guards: every accessor kind (VolatileSlice at offsets 0..=16 x lengths 0..=16; VolatileRef and VolatileArrayRef for 23 element types covering every size 1..16, offsets 0..=16, element counts 0..=9; to_slice and ref_at derivatives): ptr_guard/ptr_guard_mut len == bytes covered and pointer == first byte. (b) Xen build, emulated gntdev/privcmd (link-time interposed ioctl + mmap): on on-demand grant regions of 2 and 3 pages every access operation of the container alphabet at offsets {0,1,4090..4100,8190..8193,last} and lengths crossing 0, 1 and 2 page boundaries, 12 element types, arrays whose byte length exceeds their element count, and all histories of up to 3 operations over a boundary alphabet (state = region contents, carried over): each operation is first probed in a forked child (a dereference outside any window faults), then executed; the windows requested from the device must cover every page of the bytes the reference model says are touched, the data must be right (read back from the backing file), and no window may remain. Environment faults, deviation bound 1: every operation is re-run once per mmap call and once per map-grant request it makes with exactly that call failing; afterwards no process mapping and no device window may remain, the device protocol must have been respected (the emulated gntdev hands out first-fit indexes unrelated to guest addresses and serves mmap only for an exactly matching live window), and a complete success may not be reported with wrong data. The same for slices derived from the region's slice through every derivation the API offers (split_at either half, subslice, offset, get_slice, array and reference to_slice, two-step chains): the operations run through the derived accessor with the same oracles. Advance-mapped grant, foreign and UNIX regions: same operations, no device request allowed. States/transitions: one transition per operation executed on the real region.");
+    ctx.set_rule("(a) guards: every accessor kind (VolatileSlice at offsets 0..=16 x lengths 0..=16; VolatileRef and VolatileArrayRef for 23 element types covering every size 1..16, offsets 0..=16, element counts 0..=9; to_slice and ref_at derivatives): ptr_guard/ptr_guard_mut len == bytes covered and pointer == first byte. (b) Xen build, emulated gntdev/privcmd (link-time interposed ioctl + mmap): on on-demand grant regions of 2 and 3 pages every access operation of the container alphabet at offsets {0,1,4090..4100,8190..8193,last} and lengths crossing 0, 1 and 2 page boundaries, 12 element types, arrays whose byte length exceeds their element count, and all histories of up to 3 operations over a boundary alphabet (state = region contents, carried over): each operation is first probed in a forked child (a dereference outside any window faults), then executed; the windows requested from the device must cover every page of the bytes the reference model says are touched, the data must be right (read back from the backing file), and no window may remain. Environment faults, deviation bound 1: every operation is re-run once per mmap call and once per map-grant request it makes with exactly that call failing; afterwards no process mapping and no device window may remain, the device protocol must have been respected (the emulated gntdev hands out first-fit indexes unrelated to guest addresses and serves mmap only for an exactly matching live window), and a complete success may not be reported with wrong data. Copies from ordinary memory INTO the region through the slice-to-slice and array-to-slice forms. The same for slices derived from the region's slice through every derivation the API offers (split_at either half, subslice, offset, get_slice, array and reference to_slice, two-step chains): the operations run through the derived accessor with the same oracles. Advance-mapped grant, foreign and UNIX regions: same operations, no device request allowed. States/transitions: one transition per operation executed on the real region.");
     ctx.assume("gntdev/privcmd are emulated at the ioctl contract level (grant reference r = file offset r*4096)");
     if ctx.replay_of.is_some() {
         println!("replay: deterministic enumeration; re-running it");
